@@ -74,11 +74,14 @@ GROUPS = [
       enforce='oasis_write_real', replace=['oasis_write_unsigned_integer', 'oasis_write', 'oasis_putc', 'little_endian_swap64']),
     # byte order (src/utils.cpp): arrays of any length, loop invariants
 ] + [
-    dict(name=nm, tu='src/utils.cpp', spec_headers=['spec/ghost.h', 'spec/oasis_spec.h'], models=[],
-         harness='harness/c19_endian.c', roots=['gdstk::' + fn], entry=entry, enforce=fn, kind='unbounded',
+    dict(name=nm, tu='src/utils.cpp', spec_headers=['spec/ghost.h', 'spec/oasis_spec.h', 'spec/gds_spec.h'], models=[],
+         harness='harness/c19_endian.c', roots=['gdstk::' + fn.split('/')[0]], entry=entry, enforce=fn, kind='unbounded' if '/' not in fn else 'width_bounded',
          bound='none: loop contract (invariant + decreases), buffer length symbolic up to 2^32 elements',
-         unwind=None, timeout=900, tier='quick')
-    for nm, fn, entry in [('swap16', 'big_endian_swap16', 'h_swap16'), ('swap32', 'big_endian_swap32', 'h_swap32'),
+         unwind=None if '/' not in fn else 14, timeout=900, tier='quick')
+    for nm, fn, entry in [('swap16_small', 'big_endian_swap16/big_endian_swap16_small', 'h_swap16s'),
+                          ('swap32_small', 'big_endian_swap32/big_endian_swap32_small', 'h_swap32s'),
+                          ('swap64_small', 'big_endian_swap64/big_endian_swap64_small', 'h_swap64s'),
+                          ('swap16', 'big_endian_swap16', 'h_swap16'), ('swap32', 'big_endian_swap32', 'h_swap32'),
                           ('swap64', 'big_endian_swap64', 'h_swap64'), ('leswap16', 'little_endian_swap16', 'h_leswap16'),
                           ('leswap32', 'little_endian_swap32', 'h_leswap32'), ('leswap64', 'little_endian_swap64', 'h_leswap64')]
 ]
